@@ -3,7 +3,7 @@
      forall T v e, no_implicit_no_any T -> encode DER true 0 T v = Ok e ->
        exists T' w, decode BER None e = Ok (DV T' w, []) /\ encode DER true 0 T' w = Ok e /\ leaves T' w = leaves T v. *)
 From PV Require Import Base.Bytes Model.Tag Model.Types Model.TableTypes Model.Enc Model.Dec Gen.Tables
-     Proofs.Schemaless Proofs.TagsetShape Proofs.RoundTrip1 Proofs.SchemalessRT Proofs.SchemalessRT2 Proofs.RoundTripModesC Proofs.RoundTripModes Proofs.SchemalessRT3.
+     Proofs.Schemaless Proofs.TagsetShape Proofs.RoundTrip1 Proofs.SchemalessRT Proofs.SchemalessRT2 Proofs.RoundTripModesC Proofs.RoundTripModes Proofs.SchemalessRT3 Proofs.SchemalessRT4.
 Local Open Scope N_scope.
 
 (* the type object built for a scalar decoded without a schema carries exactly the tags met on the
@@ -105,3 +105,74 @@ Theorem C16_schemaless_roundtrip_optional : forall cd d chunk T v b tl,
     /\ encode DER true 0 T0 v0 = encode DER true 0 (fst (prune T v)) (snd (prune T v)).
 Proof. exact schemaless_roundtrip_optional. Qed.
 Print Assumptions C16_schemaless_roundtrip_optional.
+
+(* types that also contain untagged CHOICE members / elements and DEFAULT (and OPTIONAL) components: the
+   wire carries the chosen alternative under its own tags and no trace of a component that is absent or
+   equal to its default, so the comparison is against the value pruned to what is on the wire (cprune:
+   the chosen alternative in place of the CHOICE, the components present each mandatory, a SEQUENCE OF
+   as the SEQUENCE of its pruned elements; cprune_enc: every encoder writes for the pruned value what it
+   writes for the original).  BER encoder in every mode: tags, skeleton and leaves of the pruned value,
+   and the DER re-encoding is the DER encoding of the ORIGINAL value *)
+Theorem C16_schemaless_roundtrip_choice_default : forall cd d chunk T v b tl,
+  dec_ok cd -> cprunable BER d chunk T v = true -> cprunable DER true 0 T v = true ->
+  sl_frag true (fst (cprune T v)) = true -> (d = false -> RoundTripModes.no_f01 (fst (cprune T v)) = true) ->
+  sl_val BER cd (fst (cprune T v)) (snd (cprune T v)) = true ->
+  encode BER d chunk T v = Ok b -> N.of_nat (length b) <= index_max ->
+  exists T0 v0, decode cd None (b ++ tl) = Ok (DV T0 v0, tl)
+    /\ tagset_of T0 = tagset_of (fst (cprune T v))
+    /\ skel T0 v0 = skel (fst (cprune T v)) (snd (cprune T v))
+    /\ leaves T0 v0 = leaves (fst (cprune T v)) (snd (cprune T v))
+    /\ encode DER true 0 T0 v0 = encode DER true 0 T v.
+Proof. exact schemaless_roundtrip_choice_default. Qed.
+Print Assumptions C16_schemaless_roundtrip_choice_default.
+
+(* the same for the CER encoder (it sorts SET OF / SET members: skeleton up to the order under such nodes,
+   leaves a permutation; a CHOICE directly inside a SET is outside cprunable CER, see cer_set_choice_differs) *)
+Theorem C16_schemaless_roundtrip_choice_default_cer : forall cd d k T v b tl,
+  dec_ok cd -> cprunable CER false 1000 T v = true -> cprunable DER true 0 T v = true ->
+  sl_frag true (fst (cprune T v)) = true -> RoundTripModes.no_f01 (fst (cprune T v)) = true ->
+  sl_val CER cd (fst (cprune T v)) (snd (cprune T v)) = true ->
+  encode CER d k T v = Ok b -> N.of_nat (length b) <= index_max ->
+  exists T0 v0, decode cd None (b ++ tl) = Ok (DV T0 v0, tl)
+    /\ tagset_of T0 = tagset_of (fst (cprune T v))
+    /\ sk_sim (skel (fst (cprune T v)) (snd (cprune T v))) (skel T0 v0)
+    /\ Permutation.Permutation (leaves (fst (cprune T v)) (snd (cprune T v))) (leaves T0 v0)
+    /\ encode DER true 0 T0 v0 = encode DER true 0 T v.
+Proof. exact schemaless_roundtrip_choice_default_cer. Qed.
+Print Assumptions C16_schemaless_roundtrip_choice_default_cer.
+
+(* and the header statement itself for these types: a DER encoding, decoded without a guiding type by any
+   of the three decoders and re-encoded with DER, is reproduced octet for octet *)
+Theorem C16_schemaless_der_reencode_choice_default : forall cd T v e tl,
+  cprunable DER true 0 T v = true ->
+  sl_frag true (fst (cprune T v)) = true -> sl_val DER cd (fst (cprune T v)) (snd (cprune T v)) = true ->
+  encode DER true 0 T v = Ok e -> N.of_nat (length e) <= index_max ->
+  exists T0 v0, decode cd None (e ++ tl) = Ok (DV T0 v0, tl)
+    /\ encode DER true 0 T0 v0 = Ok e
+    /\ tagset_of T0 = tagset_of (fst (cprune T v))
+    /\ sk_sim (skel (fst (cprune T v)) (snd (cprune T v))) (skel T0 v0)
+    /\ Permutation.Permutation (leaves (fst (cprune T v)) (snd (cprune T v))) (leaves T0 v0).
+Proof. exact schemaless_der_reencode_choice_default. Qed.
+Print Assumptions C16_schemaless_der_reencode_choice_default.
+
+(* SEQUENCE { CHOICE { INTEGER, OCTET STRING, [3] OCTET STRING }, [0] INTEGER DEFAULT 7, OCTET STRING DEFAULT '01'H,
+   SEQUENCE OF CHOICE { NULL, SEQUENCE { INTEGER OPTIONAL, CHOICE { BOOLEAN, UTF8String } } },
+   SET { CHOICE { INTEGER, OCTET STRING }, REAL OPTIONAL, BOOLEAN } }, indefinite lengths, 2-octet segments *)
+Example C16_schemaless_roundtrip_choice_default_nonvacuous :
+  cprunable BER false 2 ex4_ty ex4_val = true /\ cprunable DER true 0 ex4_ty ex4_val = true
+  /\ cprune ex4_ty ex4_val
+     = (TSeq [ (Req, TExp (mkTag Ctx false 3) TOcts); (Req, TOcts);
+               (Req, TSeq [(Req, TNull); (Req, TSeq [(Req, TStr 12)])]);
+               (Req, TSet [(Req, TOcts); (Req, TBool)]) ],
+        VRec [ Some (VOcts [5; 6; 7]); Some (VOcts [2]);
+               Some (VRec [Some VNull; Some (VRec [Some (VOcts [104])])]);
+               Some (VRec [Some (VOcts [9]); Some (VBool false)]) ])
+  /\ sl_frag true (fst (cprune ex4_ty ex4_val)) = true /\ RoundTripModes.no_f01 (fst (cprune ex4_ty ex4_val)) = true
+  /\ sl_val BER CER (fst (cprune ex4_ty ex4_val)) (snd (cprune ex4_ty ex4_val)) = true
+  /\ exists b, encode BER false 2 ex4_ty ex4_val = Ok b /\ N.of_nat (length b) <= index_max
+       /\ exists T0 v0, decode CER None (b ++ [1]) = Ok (DV T0 v0, [1])
+            /\ length (leaves T0 v0) = 6%nat
+            /\ encode DER true 0 T0 v0 = encode DER true 0 ex4_ty ex4_val
+            /\ encode DER true 0 ex4_ty ex4_val
+               = Ok [48; 27; 163; 5; 4; 3; 5; 6; 7; 4; 1; 2; 48; 7; 5; 0; 48; 3; 12; 1; 104; 49; 6; 1; 1; 0; 4; 1; 9].
+Proof. exact schemaless_roundtrip_choice_default_nonvacuous. Qed.
